@@ -86,7 +86,7 @@ def run(ctx):
             cs.append(dict(name='decompress-truncated', args=['-d', '-n', str(rnd.choice(ws))], stdin=cut, env=lbz.sched_env(rnd), expect_rc=1))
             bad = bytearray(comps[i]); bad[rnd.randrange(len(bad) // 2, len(bad))] ^= 0x10
             cs.append(dict(name='decompress-corrupt', args=['-d', '-n', str(rnd.choice(ws))], stdin=bytes(bad), env=lbz.sched_env(rnd)))
-            cs.append(dict(name='copy-cdf', args=['-cdf', '-n', str(rnd.choice(ws))], stdin=t[:rnd.choice([0, 3, 70000, 200000])],
+            cs.append(dict(name='copy-cdf', args=['-cdf', '-n', str(rnd.choice(ws))], stdin=t[:rnd.choice([0, 3, 65540, 131076, 70000, 200000])],
                            env=lbz.sched_env(rnd), expect_rc=0, feed=lbz.feed_pattern(rnd)))
         # valid stream followed by trailing garbage that spans several input blocks, through a pipe that stalls:
         # the reader is inside read() when a worker finishes parsing
@@ -98,6 +98,13 @@ def run(ctx):
             cs.append(dict(name='decompress-trailing-garbage', args=['-d', '-n', str(rnd.choice(ws))],
                            stdin=comps[0][:0] + core.run([plain_lb, '-1'], stdin=texts[0][:3000], timeout=60).out + b'garbage!' * (glen // 8),
                            env=env, expect_rc=0, feed=([first, 1 << 20], rnd.choice([0.05, 0.2]))))
+        # inputs that end exactly on an input-block boundary (the reader's last read returns 0 bytes)
+        for t in texts[:2]:
+            cs.append(dict(name='compress-exact-multiple', args=['-1', '-n', str(rnd.choice(ws))], stdin=t[:rnd.choice([100000, 200000, 300000])],
+                           env=lbz.sched_env(rnd), expect_rc=0))
+        pad = (-(len(comps[0]) - 4)) % 4096
+        cs.append(dict(name='decompress-exact-multiple', args=['-d', '-n', str(rnd.choice(ws))], stdin=comps[0] + b'\0' * pad,
+                       env=dict(lbz.sched_env(rnd), LBZIP2_VERIF_IN_GRANUL='4096'), expect_rc=0))
         cs.append(dict(name='decompress-flood', args=['-d', '-n', str(rnd.choice(ws))], stdin=flood,
                        env=dict(lbz.sched_env(rnd), LBZIP2_VERIF_IN_GRANUL=str(rnd.choice([256, 4096]))), expect_rc=0))
         cs.append(dict(name='decompress-follower', args=['-d', '-n', str(rnd.choice(ws))], stdin=fol,
